@@ -33,16 +33,24 @@ func C01(r *Run) *core.Report {
 	}
 	c01T1(r, rep)
 	nPaths := 0
+	names, extra := cacheMethodList(r)
 	for twin := 0; twin < 2; twin++ {
-		for _, name := range cachePublic {
+		for _, name := range names {
 			mp := methodPaths(r, twin, name)
-			if undecidedPaths(r, rep, "C01.T0", mp) {
+			if extra[name] {
+				// an API addition: no reference table; the per-path rules apply where the method is modelled completely
+				if !cleanPaths(mp) {
+					continue
+				}
+			} else if undecidedPaths(r, rep, "C01.T0", mp) {
 				continue
 			}
 			rep.Fn(fn(mp.Fn))
 			nPaths += len(mp.Paths)
 			c01T2T4(r, rep, mp)
-			tableCheck(r, rep, "C01.T3", mp)
+			if !extra[name] {
+				tableCheck(r, rep, "C01.T3", mp)
+			}
 		}
 	}
 	rep.MinCount("C01.T2", "abstract paths evaluated", nPaths, 150)
